@@ -258,6 +258,11 @@ class _TaskPuller(mt.Thread):
 
                     except Exception as e:
                         self._log.exception('failed to place task')
+
+                        # give back the ranks in case they got allocated
+                        if task.get('ranks'):
+                            self._resources._dealloc(task)
+
                         task['exception']        = repr(e)
                         task['exception_detail'] = \
                                              '\n'.join(ru.get_exception_trace())
